@@ -2,13 +2,28 @@
 pub struct Diag { }
 pub type ParseResult<T> = Result<T, Diag>;
 #[derive(Clone, Copy, PartialEq, Eq, Structural)]
-pub enum TokenKind { LeftParen, RightParen, LeftBrace, Pipe, Or, Semicolon }
+pub enum TokenKind { LeftParen, RightParen, LeftBrace, RightBracket, Pipe, Or, Semicolon, Comma, Colon, Identifier }
 #[derive(Clone)]
-pub struct Token { pub k: TokenKind }
-impl Token { pub fn kind(&self) -> (r: TokenKind) ensures r == self.k { self.k } }
+pub struct Token { pub k: TokenKind, pub lo: u32, pub hi: u32 }
+impl Token {
+  pub fn kind(&self) -> (r: TokenKind) ensures r == self.k { self.k }
+  pub fn start(&self) -> (r: u32) ensures r == self.lo { self.lo }
+  pub fn end(&self) -> (r: u32) ensures r == self.hi { self.hi }
+}
+/// ast::Span
+pub struct Span { pub start: u32, pub end: u32 }
+pub struct Call { pub range: Span, pub args: Vec<Expr> }
+impl Call { pub fn new(range: Span, args: Vec<Expr>) -> (r: Call) ensures r.range == range, r.args == args { Call { range, args } } }
+pub enum Trailer { Call(Node<Call>), Other }
+pub struct Atom { pub trailers: Vec<Trailer> }
+pub enum Expr { Atom(Atom), Other }
 #[derive(Clone, Copy)]
 pub enum BlockReturn { Can, Cannot }
-pub struct Param { } pub struct TypeParam { } pub struct CallSig { } pub struct Block { } pub struct Expr { } pub struct Table { }
+pub struct Type { }
+pub struct Param { }
+impl Param { #[verifier::external_body] pub fn new(name: Token, type_: Option<Type>) -> Param { Param { } } }
+#[verifier::external_body] pub fn verif_unreachable<T>() -> T requires false { unimplemented!() }
+pub struct TypeParam { } pub struct CallSig { } pub struct Block { } pub struct Table { }
 pub struct Node<T> { pub t: T }
 pub enum FunBody { Block(Node<Block>), Expr(Node<Expr>) }
 pub struct Fun { }
@@ -20,6 +35,7 @@ pub struct Parser {
   pub loop_depth: u16,
   pub fun_kind: FunKind,
   pub previous: Token,
+  pub current: Token,
   pub let_name: Option<Token>,
   /// ghost: the loop depth at which each block / expression body was parsed, in order
   pub bodies: Ghost<Seq<u16>>,
@@ -39,17 +55,21 @@ impl Parser {
   #[verifier::external_body] pub fn match_kind(&mut self, kind: TokenKind) -> (r: ParseResult<bool>) ensures quiet(old(self), final(self)) { Ok(true) }
   #[verifier::external_body] pub fn error_current<T>(&mut self, message: &str) -> (r: ParseResult<T>) ensures r is Err, quiet(old(self), final(self)) { Err(Diag { }) }
   #[verifier::external_body] pub fn error<T>(&mut self, message: &str) -> (r: ParseResult<T>) ensures r is Err, quiet(old(self), final(self)) { Err(Diag { }) }
-  #[verifier::external_body] pub fn consume_basic(&mut self, kind: TokenKind, message: &str) -> (r: ParseResult<()>) ensures quiet(old(self), final(self)) { Ok(()) }
-  #[verifier::external_body] pub fn call_params(&mut self, stop_kind: TokenKind) -> (r: ParseResult<Vec<Param>>) ensures quiet(old(self), final(self)) { Ok(Vec::new()) }
+  /// consume the current token if it is of this kind: it becomes `previous`
+  #[verifier::external_body] pub fn consume_basic(&mut self, kind: TokenKind, message: &str) -> (r: ParseResult<()>)
+    ensures quiet(old(self), final(self)), r is Ok ==> old(self).current.k == kind && final(self).previous == old(self).current { Ok(()) }
+  #[verifier::external_body] pub fn check(&self, kind: TokenKind) -> (r: bool) { true }
+  #[verifier::external_body] pub fn consume(&mut self, kind: TokenKind, message: &str) -> (r: ParseResult<()>) ensures quiet(old(self), final(self)) { Ok(()) }
+  #[verifier::external_body] pub fn type_(&mut self) -> (r: ParseResult<Type>) ensures quiet(old(self), final(self)) { Ok(Type { }) }
   #[verifier::external_body] pub fn call_signature(&mut self, params: Vec<Param>, type_params: Vec<TypeParam>) -> (r: ParseResult<CallSig>) ensures quiet(old(self), final(self)) { Ok(CallSig { }) }
   /// statements of a block are parsed at the CURRENT loop depth (break_ / continue_ consult it)
   #[verifier::external_body] pub fn block(&mut self, block_return: BlockReturn) -> (r: ParseResult<Block>)
     ensures final(self).loop_depth == old(self).loop_depth, final(self).bodies@ == old(self).bodies@.push(old(self).loop_depth) { Ok(Block { }) }
   #[verifier::external_body] pub fn expr(&mut self) -> (r: ParseResult<Expr>)
-    ensures final(self).loop_depth == old(self).loop_depth, final(self).bodies@ == old(self).bodies@.push(old(self).loop_depth) { Ok(Expr { }) }
-  #[verifier::external_body] pub fn node<T>(&self, t: T) -> (r: Node<T>) { Node { t } }
+    ensures final(self).loop_depth == old(self).loop_depth, final(self).bodies@ == old(self).bodies@.push(old(self).loop_depth) { Ok(Expr::Other) }
+  #[verifier::external_body] pub fn node<T>(&self, t: T) -> (r: Node<T>) ensures r.t == t { Node { t } }
   #[verifier::external_body] pub fn table(&self) -> (r: Table) { Table { } }
-  #[verifier::external_body] pub fn atom_expr(&self, p: Primary) -> (r: Expr) { Expr { } }
+  #[verifier::external_body] pub fn atom_expr(&self, p: Primary) -> (r: Expr) { Expr::Other }
   #[verifier::external_body] pub fn verif_replace_fun_kind(&mut self, k: FunKind) -> (r: FunKind) ensures quiet(old(self), final(self)), final(self).previous == old(self).previous { FunKind::Fun }
 }
 // format!("...{}", self.fun_kind) needs Display; the message text is not verified (R8)
